@@ -112,6 +112,8 @@ type fanoutObs struct {
 	failed bool
 	logged []bool
 	preErr string
+	payloadViol string // a payload (of any attempt of any integration) that is not the batch
+	payloads    int
 }
 
 // execFanout runs one flush of the receiver pipeline for the given integrations (only[j] == false: integration j
@@ -131,15 +133,17 @@ func execFanout(t *testing.T, fc *FanoutCase, only []bool) fanoutObs {
 		alerts := mkAlerts(fc.Alerts, t0.Add(time.Second)) // offsets are relative to the flush instant
 		metrics := notify.NewMetrics(prometheus.NewRegistry(), featurecontrol.NoopFlags{})
 		var integs, pre []notify.Integration
+		var notifiers []*scripted
 		for j, g := range fc.Integs {
 			if !only[j] {
 				continue
 			}
-			sn := &scripted{id: j, script: g.Script, onCall: func(id int, at int64, oc string) {
+			sn := &scripted{id: j, script: g.Script, tmpl: theTemplate(t), onCall: func(id int, at int64, oc string) {
 				mu.Lock()
 				o.events = append(o.events, EventObs{Kind: "notify", Integ: id, At: at, Outcome: oc})
 				mu.Unlock()
 			}}
+			notifiers = append(notifiers, sn)
 			integs = append(integs, notify.NewIntegration(sn, sendResolved(g.SendResolved), "scripted", j, "team"))
 			rl.fail[uint32(j)] = g.LogFails
 			recv := &nflogpb.Receiver{GroupName: "team", Integration: "scripted", Idx: uint32(j)}
@@ -149,7 +153,7 @@ func execFanout(t *testing.T, fc *FanoutCase, only []bool) fanoutObs {
 					t.Fatal(err)
 				}
 			case "same": // an earlier, successful, identical notification of this integration
-				pre = append(pre, notify.NewIntegration(&scripted{id: j, script: []string{"ok"}}, sendResolved(g.SendResolved), "scripted", j, "team"))
+				pre = append(pre, notify.NewIntegration(&scripted{id: j, script: []string{"ok"}, tmpl: theTemplate(t)}, sendResolved(g.SendResolved), "scripted", j, "team"))
 			}
 		}
 		if len(pre) > 0 {
@@ -168,6 +172,20 @@ func execFanout(t *testing.T, fc *FanoutCase, only []bool) fanoutObs {
 		defer cancel()
 		_, _, ferr := stage.Exec(ctx, promslog.NewNopLogger(), alerts...)
 		o.failed = ferr != nil
+		// faithful payload on every attempt and for every integration: all of them are handed the same alert objects
+		for _, sn := range notifiers {
+			for k, cl := range sn.calls {
+				o.payloads++
+				if why := payloadFaithful(fc.Alerts, idxs(alerts, cl.alerts), cl.payload); why != "" && o.payloadViol == "" {
+					o.payloadViol = fmt.Sprintf("integration %d attempt %d: %s", sn.id, k+1, why)
+				}
+			}
+		}
+		for i, a := range alerts {
+			if (!sameKV(lsMap(a.Labels), fc.Alerts[i].Labels) || !sameKV(lsMap(a.Annotations), fc.Alerts[i].Annots)) && o.payloadViol == "" {
+				o.payloadViol = fmt.Sprintf("after the flush alert %d of the batch has annotations %v, it had %v", i, a.Annotations, fc.Alerts[i].Annots)
+			}
+		}
 		for j := range fc.Integs {
 			recv := &nflogpb.Receiver{GroupName: "team", Integration: "scripted", Idx: uint32(j)}
 			es, err := real.Query(nflog.QGroupKey(fanoutGKey), nflog.QReceiver(recv))
@@ -237,6 +255,9 @@ func runFanout(t *testing.T, c *Case) result {
 	// ---- direct oracle ----
 	viol := func(key, what string) {
 		res.viol = append(res.viol, vh.Violation{Key: key, What: what, Case: c})
+	}
+	if o.payloadViol != "" {
+		viol("fanout-payload-not-the-batch", o.payloadViol)
 	}
 	if o.preErr != "" {
 		viol("fanout-always-ok-integration-fails", "a flush whose only integrations succeed at the first attempt failed: "+o.preErr)
